@@ -434,6 +434,21 @@ def r_one_link_out(ck: Checker) -> None:
         ck.need(n >= 3, "comparison literals reach an emission site")
 
 
+def r_replace_stms(ck: Checker) -> None:
+    """inline_replace_stms is a map: one result per given literal / term, position by position (it is also applied to the
+    term tuples of aggregate elements, where a dropped duplicate changes which tuples coincide)"""
+    func = ck.func("normalize:inline_replace_stms")
+    lits, var, new = func.params()[:3]
+    rets = [r for r in returns_of(func) if r.value is not None]
+    ck.need(len(rets) == 1, "inline_replace_stms returns its result at one site")
+    ret = rets[0]
+    val = single_def(func, ret.value.id) if isinstance(ret.value, ast.Name) else ret.value  # an accumulating loop reads as its comprehension
+    how = f"returns `{short(unparse(val), 110) if val is not None else 'a list built in several steps'}`"
+    ok = val is not None and same(unparse(val), f"[inline_replace_stm(x, {var}, {new}) for x in {lits}]")
+    ck.add("one result per element, in order, nothing dropped or merged", ok, func, ret, how,
+           "inline_aggregate sends the TERM TUPLE of an element through this helper: after `W = I` is inlined the tuple `W,I` reads `I,I`; dropping the duplicate makes it `I`, which coincides with another element's tuple, and the sum loses a summand")
+
+
 def r_exline(ck: Checker) -> None:
     func = ck.func("normalize:exline_term")
     it = ck.interp(func)
@@ -547,6 +562,10 @@ def r_replace_assignments(ck: Checker) -> None:
     c_, s_ = [unparse(e) for e in lps[0].target.elts]  # type: ignore[attr-defined]
     ok_r = all(unparse(r.value) == s_ and itr.holds(r, f"{v} in {c_}") for r, s in rets)
     ck.add("_replace: a variable is replaced by the representative of the class it belongs to", ok_r, rp, rets[0][0], f"returns `{[unparse(r.value) for r, s in rets]}` under `{v} in {c_}`: {ok_r}", "")
+    same_back = [r for r, s in itr.returns if r.value is not None and unparse(r.value) == v]
+    early = [r for r in same_back if enclosing_loop(rp, r) is not None]
+    ck.add("_replace: a variable stays as it is only if it is in NONE of the classes", bool(same_back) and not early and unparse(lps[0].iter) == u, rp, early[0] if early else lps[0],  # type: ignore[attr-defined]
+           f"`return {v}` inside the loop over the classes: {len(early)}", "with two independent equalities (`X1 = X2, Y1 = Y2`) the second class is never looked at: the caller still deletes both equality literals, so the second tie is dropped without being applied")
 
 
 RULES_EXTRA = [Rule("C05.one-link", P + ("C12", "C14", "C11", "C04"), r_one_link)]
@@ -557,6 +576,7 @@ RULES = RULES_EXTRA + [
     Rule("C05.chain-split", P, r_chain_split),
     Rule("C05.chain-places", P + ("C03", "C11", "C14"), r_chain_places),
     Rule("C05.one-link-out", P + ("C03", "C11", "C14"), r_one_link_out),
+    Rule("C05.replace-stms", P, r_replace_stms),
     Rule("C05.TABLE.equality", P, r_equality_table),
     Rule("C05.C4.local-only", P + ("C04",), r_local_only),
     Rule("C05.C6.inline-rule", P, r_inline_rule),
